@@ -89,7 +89,7 @@ class Report:
         for k, o in viols:
             os.makedirs(rdir, exist_ok=True)
             fn = os.path.join(rdir, re.sub(r"[^A-Za-z0-9_.-]+", "_", k)[:150] + ".json")
-            json.dump(dict(property=self.pid, key=k, **o), open(fn, "w"), indent=1)
+            json.dump(dict(o, property=self.pid, key=k), open(fn, "w"), indent=1)
             print(f'  {o["rule"]} FAILED at {o["file"]}:{o["line"]}  instance={o["key"]}\n      {o["detail"]}')
             print(f"VIOLATION property={self.pid} replay={fn}")
         self.write_evidence(len(viols), kf)
